@@ -11,10 +11,12 @@ for d in sorted(os.listdir(os.path.join(V, "seeded"))):
     notes = m.get("needs_to_manifest", "")
     first = next((l.strip("# ").strip() for l in notes.split("\n") if l.strip()), "")
     det = []
-    for c, r in m.get("detected_by", {}).items():
+    own = m.get("property", d.split("_")[0])
+    items = sorted(m.get("detected_by", {}).items(), key=lambda kv: (kv[0] != own, kv[0]))
+    for c, r in items:
         v = r.get("violation_lines") or []
         if not v:
-            det.append(f"{c}: **missed**")
+            det.append(f"{c}: **missed**" if c == own else f"({c}, another property's check, run for comparison: quiet)")
         elif "no-failing-input-found" in v[0]:
             det.append(f"{c}: broken tie/proof, no failing input")
         else:
